@@ -94,6 +94,7 @@ def run(ch: Checker) -> None:
                      '(a route plugin serving "its own" assets by request path opens whatever that path names)', 2)
     ch.rule('C13.9', 'dot-segments of the request path are resolved together with the root, never on their own: no normpath/abspath/realpath/resolve is applied to the request path before it is joined to the root '
                      '(resolved alone, "/../x" collapses to "/x" and the containment test can no longer see that the request left the root)', 1)
+    ch.rule('C13.10', 'Url.from_bytes: the path-and-query text (`remainder`) is a piece of the request target, cut out by subscripts / slices / split on constants and not edited: the query is still part of it there, and only the text before the "?" may select the file', 1)
     ch.rule('C13.4', 'serve_static_file: open/read inside a try whose OSError handler returns NOT_FOUND_RESPONSE_PKT', 1)
 
     web = prog.class_named('HttpWebServerPlugin')
@@ -349,6 +350,48 @@ def run(ch: Checker) -> None:
         tainted = tainted and not all(attr_chain(n) in ('os.path',) for n in ast.walk(arg) if isinstance(n, ast.Attribute) and n.attr == 'path')
         ch.check(not tainted, 'C13.3', fn, c, 'serve_static_file called with a configuration-derived path (%s)' % (norm(arg)[:80] if arg is not None else ''),
                  'serve_static_file called with a request-derived path outside the guarded static handler')
+
+    # ---------------- C13.10 the request target's path-and-query text reaches the handlers as it was sent
+    fb = prog.own_method('Url', 'from_bytes')
+    rawp = fb.params[1] if len(fb.params) > 1 else 'raw'
+    n10 = 0
+    bad10 = None
+
+    def _verbatim(e: ast.AST) -> Optional[str]:
+        """None when e only cuts pieces out of the input (subscripts, slices, split on a constant, concatenation with constants); else what edits it"""
+        if isinstance(e, ast.Constant) or (isinstance(e, ast.Name) and (e.id == rawp or e.id.isupper())):
+            return None
+        if isinstance(e, ast.Subscript):
+            return _verbatim(e.value)
+        if isinstance(e, ast.IfExp):
+            return _verbatim(e.body) or _verbatim(e.orelse)
+        if isinstance(e, ast.BinOp) and isinstance(e.op, ast.Add):
+            return _verbatim(e.left) or _verbatim(e.right)
+        if isinstance(e, ast.Call) and isinstance(e.func, ast.Attribute) and e.func.attr in ('split', 'partition', 'rsplit', 'rpartition') and not e.keywords:
+            return _verbatim(e.func.value)
+        if isinstance(e, ast.Call) and (attr_chain(e.func) or '') in ('bytes', 'memoryview') and len(e.args) == 1:
+            return _verbatim(e.args[0])
+        return norm(e)[:70]
+    for p in fpaths(cfg_of(fb, prog, exc_edges=False), limit=100000):
+        if p.exit_kind != 'return' or not p.stmts():
+            continue
+        sym10 = Sym(p)
+        for i, st in p.stmts():
+            for c in walk_no_nested(st):
+                if isinstance(c, ast.Call):
+                    for kw in c.keywords:
+                        if kw.arg == 'remainder':
+                            v = sym10.value(kw.value, i)
+                            if isinstance(v, ast.Constant) and v.value is None:
+                                continue
+                            n10 += 1
+                            why = _verbatim(v)
+                            if why is not None:
+                                bad10 = ('Url.from_bytes hands on a path-and-query text that was edited (%s): `remainder` still contains the query string at this point, so an edit of "the path" (dot segments, '
+                                         'case, escapes) is steered by what follows the "?" -- /a/b.txt?next=/../../c.txt selects another file than /a/b.txt' % why, p.describe(14))
+    ch.check(bad10 is None and n10 > 0, 'C13.10', fb, 'remainder verbatim', 'the path-and-query text is a piece of the request target, cut out and not edited (%d site-path(s))' % n10,
+             bad10[0] if bad10 else 'no remainder= found in Url.from_bytes', witness=bad10[1] if bad10 else None)
+
 
 
 def _query_stripped(cand: ast.AST, src: str) -> bool:
